@@ -2,7 +2,7 @@
     the shortest/longest matching prefix/suffix, the empty one included.
     Only pinned statements, [exact], and [Print Assumptions]. *)
 From BV Require Import Base.Prelude ParamExp.Remove ParamExp.RemoveProofs ParamExp.Param ParamExp.ParamSpec ParamExp.ParamProofs.
-From BV Require Import gen.C06ParamOps ParamExp.OpsOrder.
+From BV Require Import gen.C06ParamOps ParamExp.OpsOrder ParamExp.EvProofs.
 
 (** ** The bash-independent clause, for every matcher [m] and every string [s]. *)
 
@@ -132,6 +132,13 @@ Theorem c06_regression_old_substring_negative_length :
   obs (substring_old (sh_scalar abcdefgh) RNamed 2 (Some (-3))) <> substring_spec (sh_scalar abcdefgh) RNamed 2 (Some (-3)).
 Proof. exact substring_negative_length_refuted. Qed.
 Print Assumptions c06_regression_old_substring_negative_length.
+
+(** Order of evaluation: the offset is evaluated only for a parameter that has words, the length only
+    for an offset inside the value (side effects and errors of skipped operands do not happen). *)
+Theorem c06_substring_evaluation_order : forall sh r off olen, fits sh r ->
+  obs_ev (substring_ev sh r off olen) = substring_spec_ev sh r off olen.
+Proof. exact substring_ev_eq_spec. Qed.
+Print Assumptions c06_substring_evaluation_order.
 
 (** ** [${!a[@]}] / [${!a[*]}] *)
 Theorem c06_member_keys : forall sh c, dq_args (member_keys sh c) = keys_spec sh c.
